@@ -18,6 +18,11 @@ KINDS = ["delta", "deltaplus", "single", "double"]
 FRACS = {"on": 0.0, "q1": 0.25, "q2": 0.5, "q3": 0.75, "lo": 0.1, "hi": 0.9}
 
 
+def _cob(desc):
+    v = desc["cob"]
+    return float(v) if isinstance(v, str) else v
+
+
 def generate(ctx):
     rng = ctx.rng
     th = ctx.tier == "thorough"
@@ -41,7 +46,7 @@ def generate(ctx):
                                "qseed": rng.randrange(1 << 30)})
             queries.append(qs)
         yield {"kind": kind, "dt": dt, "delay": dk * dt, "delay_steps": dk, "tol": tol, "T": T, "train": train,
-               "interp": interp, "cob": rng.choice([0.0, None, -7.5]),
+               "interp": interp, "cob": rng.choice([0.0, None, -7.5, -7.5, "nan", "inf", "-inf"]),      # (non-finite marker values spelled as strings)
                "sob": rng.choice([False, None, True]), "B": rng.randint(1, 3),
                "shape": list(rng.choice([(3,), (2, 2), (1,)])), "inplace": rng.random() < 0.5,
                **({"Q": rng.choice([1.0, 2.5, -1.5]), "tc": rng.choice([2.0, 5.0, 20.0]), "tr": rng.choice([0.5, 1.0])}
@@ -59,7 +64,7 @@ def generate(ctx):
 
 def _build(desc, inplace):
     k = desc["kind"]
-    common = dict(spike_charge=desc["Q"], delay=desc["delay"], interp_tol=desc["tol"], current_overbound=desc["cob"],
+    common = dict(spike_charge=desc["Q"], delay=desc["delay"], interp_tol=desc["tol"], current_overbound=_cob(desc),
                   spike_overbound=desc["sob"], batch_size=desc["B"], inplace=inplace)
     shape = tuple(desc["shape"])
     final_dt = desc["dt"]
@@ -71,7 +76,7 @@ def _build(desc, inplace):
         desc = {**desc, "dt": desc["built_dt"]}
     if desc.get("via_partial"):
         # the documented common-signature route (what connections use): hyper-parameters bound first, geometry later
-        pk = dict(interp_tol=desc["tol"], current_overbound=desc["cob"], spike_overbound=desc["sob"], inplace=inplace)
+        pk = dict(interp_tol=desc["tol"], current_overbound=_cob(desc), spike_overbound=desc["sob"], inplace=inplace)
         if k == "delta":
             ctor = DeltaCurrent.partialconstructor(desc["Q"], desc["interp"], **pk)
         elif k == "deltaplus":
@@ -289,7 +294,9 @@ def run_case(ctx, desc):
             ks, frs, cls, sel, shp = _selector(desc, q, full, gq)
             what = q["what"]
             fn, fn2 = (syn.current_at, twin.current_at) if what == "current" else (syn.spike_at, twin.spike_at)
-            ob = desc["cob"] if what == "current" else desc["sob"]
+            ob = _cob(desc) if what == "current" else desc["sob"]
+            if what == "current" and isinstance(desc["cob"], str):
+                ctx.count("queries_with_nonfinite_out_of_bounds_value")
             sub = f"{what}_at.{q['kind']}.overbound_{'none' if ob is None else 'value'}.tol{'0' if desc['tol'] == 0 else '+'}" \
                   f".delay{'0' if desc['delay'] == 0 else '+'}"
             ctx.case(f"{tag}/{sub}/D{q['D']}")
@@ -305,7 +312,8 @@ def run_case(ctx, desc):
                 return ctx.violation(f"{kind}.{what}_at.shape", f"shape {tuple(got.shape)} expected {shp}", rdesc)
             if what == "spike" and got.dtype != torch.bool:
                 return ctx.violation(f"{kind}.spike_at.dtype", f"dtype {got.dtype}", rdesc)
-            if not torch.equal(got, got2):
+            if not torch.equal(got.nan_to_num(nan=-12345.0) if got.is_floating_point() else got,
+                               got2.nan_to_num(nan=-12345.0) if got2.is_floating_point() else got2):
                 return ctx.violation(f"{kind}.inplace_vs_outofplace.{what}_at", "twins disagree on a delayed read", rdesc)
             if kind == "double" and what == "current" and (desc["cob"] in (None, 0.0) or all(c == "in" for c in cls)):
                 # (beyond the range each branch is replaced by the configured out-of-bounds value on its own, so the difference
@@ -333,7 +341,7 @@ def run_case(ctx, desc):
                 if what == "spike":
                     ok = bool(gflat[idx]) == bool(expv)
                 else:
-                    ok = np.isclose(gflat[idx], expv, rtol=1e-9, atol=1e-10)
+                    ok = np.isclose(gflat[idx], expv, rtol=1e-9, atol=1e-10, equal_nan=True)
                 if not ok:
                     where = "in_range" if c == "in" else ("beyond_range.overbound_value" if ob is not None else "beyond_range.limit_value")
                     grid = "ongrid" if fr == 0.0 else "offgrid"
